@@ -32,6 +32,11 @@ func init() {
 			// record into its own object
 			if pd := c.Prog(ModDurable); pd != nil {
 				checkStoreDecodeTargets(c, pd, PkgDurable, "C09.R3")
+				c.Rule("C09.R6", "a bundled store's append runs under its own caller's context: nothing obtained under one call's context is kept in a field for later calls")
+				checkNoRequestScopedState(c, pd, PkgDurable, "C09.R6")
+			}
+			if ps := c.Prog(ModSQLite); ps != nil {
+				checkNoRequestScopedState(c, ps, PkgSQLite, "C09.R6")
 			}
 			c.Assume = append(c.Assume, "EventStore.Append is synchronous in the bundled stores", "json.Marshal/EventType are deterministic functions of the event")
 		},
